@@ -6,13 +6,13 @@ import itertools
 from .. import env
 from .c01 import sym_bloom, hv
 from .c12 import FIXED
-from . import c04, c12, c13, c16
+from . import c04, c11, c12, c13, c16
 
 PROPERTY = "C19"
 CROSS_CHECK = True      # thorough: dumped assertion queries are re-decided by z3 4.8.12 and cvc5 1.0
 LEVEL = "model_checking"
 STUBS = ["array/bytes/Struct/BytesIO shadows", "float/math in the Bloom modules -> opaque floats (statistics run, their values are not modelled)",
-         "cuckoo: see C03; on-disk Bloom: see C11 (c11.queries); set operations: the stubs of C04, C12, C13, C16"]
+         "cuckoo: see C03; on-disk Bloom: the stubs of C11 (c11.queries, c11.clear are re-run here); set operations: the stubs of C04, C12, C13, C16"]
 ASSUMPTIONS = [
     "state = every cell, counter and table entry, compared term by term (and the exported bytes) before and after the read-only calls",
     "read-only calls per structure: check / check_alt / in / hashes / export / export_hex / __bytes__ / str / estimate_elements / current_false_positive_rate / export_size / load_factor / get_hashes / print / validate_metadata and property getters; the non-receiver side of union / intersection / jaccard / join / merge is asserted in C12, C13, C16 and C04",
@@ -177,7 +177,7 @@ def qf(ctx, cfg):
 
 
 HARNESS = {"c19.bloom": bloom, "c19.expanding": expanding, "c19.cms": cms, "c19.cuckoo": cuckoo, "c19.qf": qf}
-for _m in (c04, c12, c13, c16):      # the non-receiver side of set operations: the operand-unchanged clauses of the neighbouring modules
+for _m in (c04, c11, c12, c13, c16):      # the non-receiver side of set operations: the operand-unchanged clauses of the neighbouring modules
     for _k, _v in _m.HARNESS.items():
         HARNESS.setdefault(_k, _v)
 
@@ -214,4 +214,6 @@ def jobs(tier):
     js += [j for j in c13.jobs(tier) if j["h"] == "c13.bloom" and j["cfg"]["est"] <= 3 or j["h"] == "c13.cbf" and j["cfg"] == {"est": 1, "fpr": .5}]
     js += [j for j in c16.jobs(tier) if j["h"] == "c16.cbf_merge" and j["cfg"]["est"] == 1]
     js += [j for j in c04.jobs("quick") if j["h"] == "c04.merge"]
+    # on-disk Bloom filter: queries leave the file alone, clear() makes file and object those of a fresh filter
+    js += [j for j in c11.jobs(tier) if j["h"] in ("c11.queries", "c11.clear")]
     return js
